@@ -173,8 +173,18 @@ def _wrun(case):
         return case, _SCEN.run_case(case)
     except BaseException as e:  # noqa
         import traceback
-        return case, {'infra_error': ''.join(traceback.format_exception(type(e), e, e.__traceback__))[-2000:],
-                      'monitors': [], 'events': []}
+        text = ''.join(traceback.format_exception(type(e), e, e.__traceback__))[-2000:]
+        # An exception that comes out of the code under test (innermost frame inside mpservice)
+        # while the scenario was driving it is a finding about /repo, not a harness problem:
+        # report it through the monitors of the properties the scenario serves.
+        tb = traceback.extract_tb(e.__traceback__)
+        crash_props = getattr(_SCEN, 'CRASH_PROPS', None)
+        if crash_props and tb and '/src/mpservice/' in tb[-1].filename:
+            return case, {'monitors': [dict(prop=p, rule='code-under-test-raised',
+                                            detail=f'{type(e).__name__}: {e} at {tb[-1].filename.split("/src/")[-1]}:{tb[-1].lineno}')
+                                       for p in crash_props],
+                          'events': [], 'crash': text}
+        return case, {'infra_error': text, 'monitors': [], 'events': []}
 
 
 def _wrun_chunk(cases):
